@@ -1,7 +1,7 @@
 (* C03 — A successfully loaded module is structurally well-formed. *)
 From Coq Require Import ZArith List Lia Bool.
 Import ListNotations.
-From LX Require Import Base.ListAux Generated.Consts Model.ModuleWf Model.Gate Proofs.GateProofs Model.SeqScan Proofs.SeqScanProofs Model.ModLoad Proofs.ModLoadProofs Model.C669Load Proofs.C669LoadProofs Model.MtmLoad Proofs.MtmLoadProofs Model.S3MLoad Proofs.S3MLoadProofs.
+From LX Require Import Base.ListAux Generated.Consts Model.ModuleWf Model.Gate Proofs.GateProofs Model.SeqScan Proofs.SeqScanProofs Model.ModLoad Proofs.ModLoadProofs Model.C669Load Proofs.C669LoadProofs Model.MtmLoad Proofs.MtmLoadProofs Model.S3MLoad Proofs.S3MLoadProofs Proofs.LoaderStreamProofs.
 Local Open Scope Z_scope.
 
 (* Whatever a loader leaves behind (arbitrary integers in every field), if the sanity gate, the epilogue and
@@ -170,6 +170,57 @@ Theorem screamtracker3_module_is_wf : forall file r m,
   Forall (fun b => 0 <= b <= 255) file -> s3m_raw file = Some r -> finish r = Some m -> wf_noseq m = true.
 Proof. exact s3m_loaded_module_is_wf. Qed.
 Print Assumptions screamtracker3_module_is_wf.
+
+(* The three loader models above read the file through position-based primitives (a byte, 16 / 32 bits little-endian, a block, an
+   absolute seek).  These are not a second, independent idea of what hio does on a memory stream: each one is the corresponding
+   step of the memory back-end of Model/Hio.v - the model that C07 ties to src/hio.c and memio.c by its own differential -
+   including what happens at the end of the data (0xff / all-ones results, the position moved to the end, the EOF error flag
+   that a successful seek clears). *)
+Theorem loader_byte_read_is_hio_read8 : forall file p b e, 0 <= p ->
+  let r := Hio.mem_step file (st p b e) Hio.Read8 in
+  C669Load.rd8 file p = (Hio.oval (snd r), Hio.pos (fst r))
+  /\ (Hio.herr (fst r) = if 1 <=? Hio.avail file p then e else Hio.EOFV).
+Proof. exact rd8_is_mem_read8. Qed.
+Print Assumptions loader_byte_read_is_hio_read8.
+
+Theorem loader_16bit_read_is_hio_read : forall file p b e, 0 <= p ->
+  let r := Hio.mem_step file (st p b e) (Hio.ReadN 2) in
+  snd (MtmLoad.rd16l file p) = Hio.pos (fst r)
+  /\ (2 <= Hio.avail file p -> exists x y, Hio.obytes (snd r) = [x; y] /\ fst (MtmLoad.rd16l file p) = x + 256 * y /\ Hio.herr (fst r) = e)
+  /\ (Hio.avail file p < 2 -> fst (MtmLoad.rd16l file p) = 65535 /\ Hio.oval (snd r) = -1 /\ Hio.herr (fst r) = Hio.EOFV).
+Proof. exact rd16l_is_mem_read16. Qed.
+Print Assumptions loader_16bit_read_is_hio_read.
+
+Theorem loader_32bit_read_is_hio_read : forall file p b e, 0 <= p ->
+  let r := Hio.mem_step file (st p b e) (Hio.ReadN 4) in
+  snd (C669Load.rd32l file p) = Hio.pos (fst r)
+  /\ (4 <= Hio.avail file p -> exists x y z w, Hio.obytes (snd r) = [x; y; z; w]
+        /\ fst (C669Load.rd32l file p) = x + 256 * y + 65536 * z + 16777216 * w /\ Hio.herr (fst r) = e)
+  /\ (Hio.avail file p < 4 -> fst (C669Load.rd32l file p) = 4294967295 /\ Hio.oval (snd r) = -1 /\ Hio.herr (fst r) = Hio.EOFV).
+Proof. exact rd32l_is_mem_read32. Qed.
+Print Assumptions loader_32bit_read_is_hio_read.
+
+Theorem loader_block_read_is_hio_read : forall file p n b e, 0 <= p -> 0 < n ->
+  let r := Hio.mem_step file (st p b e) (Hio.ReadBuf 1 n) in
+  C669Load.rdn file p n = (Hio.obytes (snd r), Hio.pos (fst r))
+  /\ (zlen (fst (C669Load.rdn file p n)) = n <-> Hio.oval (snd r) = n).
+Proof. exact rdn_is_mem_read. Qed.
+Print Assumptions loader_block_read_is_hio_read.
+
+Theorem loader_seek_is_hio_seek : forall file p b e off, 0 <= off ->
+  let r := Hio.mem_step file (st p b e) (Hio.Seek off 0) in
+  S3MLoad.seek_set file off = Hio.pos (fst r) /\ Hio.oval (snd r) = 0
+  /\ Hio.herr (fst r) = (if e =? Hio.EOFV then 0 else e).
+Proof. exact seek_set_is_mem_seek. Qed.
+Print Assumptions loader_seek_is_hio_seek.
+
+Theorem s3m_pattern_loop_entered_with_hio_error_state : forall file off b e, 0 <= off ->
+  let s1 := fst (Hio.mem_step file (st 0 b e) (Hio.Seek off 0)) in
+  let r := Hio.mem_step file s1 (Hio.ReadN 2) in
+  e = 0 \/ e = Hio.EOFV ->
+  ((C669Load.avail file (S3MLoad.seek_set file off) <? 2) = true <-> Hio.herr (fst r) <> 0).
+Proof. exact s3m_pattern_entry_error_flag. Qed.
+Print Assumptions s3m_pattern_loop_entered_with_hio_error_state.
 
 (* non-vacuity: a 669 file with one pattern, two orders and one four-byte sample whose loop start is 0x80000000 (negative once
    stored in an int) and whose loop end is 3: the loader accepts it, the sample loader clamps the loop to 0..3, the gate lets it
